@@ -9,16 +9,6 @@ import DateutilVerif.Proofs.RRuleMonoThm
 namespace RRule
 open Cal
 
-theorem divmod_spec (a b : Int) (hb : 0 < b) :
-    (Py.divmod a b).1 * b + (Py.divmod a b).2 = a ∧ 0 ≤ (Py.divmod a b).2 ∧ (Py.divmod a b).2 < b := by
-  unfold Py.divmod
-  dsimp only
-  rw [Py.fdiv_pos a hb, Py.fmod_pos a hb]
-  have h1 := Int.ediv_mul_add_emod a b
-  have h2 := Int.emod_nonneg a (by omega : b ≠ 0)
-  have h3 := Int.emod_lt_of_pos a hb
-  exact ⟨h1, h2, h3⟩
-
 /-- `__mod_distance`: the result is `j ≥ 1` steps of `interval` further, written in base `base` -/
 theorem modDistance_spec (interval : Int) (byxxx : List Int) (base : Int) (hb : 0 < base) :
     ∀ (n : Nat) (acc v acc' v' : Int), modDistance interval byxxx base n acc v = some (acc', v') →
